@@ -1248,9 +1248,9 @@ def check(run):
     d = V.scratch("C05")
     cs = corpus_cases()
     cs += witnesses()
-    n = 170 if quick else 4000
+    n = 150 if quick else 4000
     cs += [gen_scn(r, k) for k in range(n)]
-    cs += [gen_scn(r, "f%d" % k, REBIN_FOCUS) for k in range(24 if quick else 600)]
+    cs += [gen_scn(r, "f%d" % k, REBIN_FOCUS) for k in range(20 if quick else 600)]
     nsample = 0
     for (c, impl, mo, txt, rcv, o, traj, mline) in run_scenarios(run, exe, model, cs, d):
         check_one(run, c, impl, mo, txt, rcv, o, traj, mline)
